@@ -305,7 +305,9 @@ func (p *Program) contractEffects(u *Universe, con *spec.FuncContract, fn *ssa.F
 			}
 		}
 	}
-	if !con.Pure {
+	// `opt stores_fn`: the callee only stores its func-typed arguments (e.g. a commit hook
+	// registration) and does not run them during the call
+	if _, stores := con.Opts["stores_fn"]; !con.Pure && !stores {
 		p.closureArgEffects(u, args, ce)
 	}
 	return ce
